@@ -3,6 +3,7 @@
 package main
 
 import (
+	"bytes"
 	"context"
 	"encoding/binary"
 	"encoding/json"
@@ -514,6 +515,29 @@ func TestVerif_C03(t *testing.T) {
 				R.Exhaustive = false
 			} else {
 				R.Outcome("legacy-world:every-stored-cid-fetched")
+			}
+		}
+		// every archived object fetched by CID, the results kept, then compared: "never bytes stored under a
+		// different CID" also for a caller that looks at its bytes after the next fetch (cold cache: a fresh epoch)
+		if task(2) && !two {
+			if epH, err := vkLoadEpoch(eA.ConfigPath, vkNewCache()); err == nil {
+				var heldData [][]byte
+				for i := range eA.Truth.Objects {
+					d, err := epH.GetNodeByCid(ctx, eA.Truth.Objects[i].Cid)
+					if err != nil {
+						d = nil
+					}
+					heldData = append(heldData, d)
+				}
+				for i := range eA.Truth.Objects {
+					o := &eA.Truth.Objects[i]
+					R.Case(true, "")
+					if heldData[i] != nil && !bytes.Equal(heldData[i], o.Data) {
+						viol("fetch-by-cid|bytes-of-another-object", fmt.Sprintf("GetNodeByCid(%s) returned this object's bytes; after the other objects were fetched the same slice holds other bytes (another object's)", o.Cid), map[string]interface{}{"cid": o.Cid.String()})
+						break
+					}
+				}
+				epH.Close()
 			}
 		}
 		for _, c := range cidColliders {
